@@ -167,17 +167,33 @@ def main(pid, tier, seed):
     # whole trainings: plain vs hex vs count-prefixed lists give identical rulesets
     n_same = 3 if tier == 'quick' else 25
     for k in range(n_same):
-        encoding = rng.choice(['utf-8', 'iso-8859-1'])
-        base = ['password', 'pass word', ' lead', 'trail ', 'abc123', 'été', 'qwerty12', '12345', 'a!b', '$HEX[look', 'x' * 5]
+        encoding = ['iso-8859-1', 'utf-8', 'cp1251'][k % 3]         # a non-UTF-8 encoding in every run
+        base = ['password', 'pass word', ' lead', 'trail ', 'abc123', 'qwerty12', '12345', 'a!b', '$HEX[look', 'x' * 5]
         recs = [(rng.randint(1, 6), rng.choice(base), None) for _ in range(rng.randint(4, 9))]
         recs += [(2, 'skip\x0cme', None), (1, 'tab\there', None)]
+        recs += [(2, 'été' if encoding != 'cp1251' else 'пароль', None), (1, 'Zoë9' if encoding != 'cp1251' else 'Любовь1', None)]   # non-ASCII in every list
         d = os.path.join(work, 't%d' % k)
         variants = write_variants(d, recs, encoding, rng)
         digs = {}
+        meant_t = []
+        for n_, s_, _ in recs:
+            if not any(c in s_ for c in '\x0c\t'):
+                meant_t += [s_] * n_
         for name in ('plain', 'hex', 'count', 'mixed'):
             p, pc = variants[name]
             res = train.train(training_file=p, encoding=encoding, prefixcount=pc, ngram=3, coverage=0.6)
             digs[name] = digest_ruleset(res['dir']) if res['ok'] else [('FAILED', res['error'] or 'x')]
+            # the three passes of the REAL run_trainer (each constructs its own reader): same sequence, the meant one
+            passes = [fi_.verif_yielded for fi_ in res['captured'].get('file_inputs', [])]
+            if res['ok']:
+                while len(passes) < 3:
+                    passes.append([])
+                tid += 1
+                traces.append({'tid': tid, 'kind': 'seq', 'plain': [cps(x) for x in passes[0]], 'variants': [[cps(x) for x in meant_t]],
+                               'pass1': [cps(x) for x in passes[0]], 'pass2': [cps(x) for x in passes[1]], 'pass3': [cps(x) for x in passes[2]],
+                               'meant': [cps(x) for x in meant_t], 'counts_ok': True})
+                meta[tid] = {'encoding': encoding, 'records': 'the three passes of run_trainer on the %s file' % name,
+                             'yielded': {'pass%d' % (i_ + 1): len(x) for i_, x in enumerate(passes)}, 'meant': len(meant_t)}
         ids = {}
         I = lambda x: ids.setdefault(x, len(ids) + 1)
         for name in ('hex', 'count', 'mixed'):
